@@ -21,6 +21,10 @@ def instances(tier):
     for (s, e, f) in windows(tier):
         n += 1
         yield f'win{s}-{e}-{f}', dict(BASE, max_len=3 if tier == 'quick' else 3, win_start=s, win_end=e, fill=f), 'AlphaC03', None
+    # a window that extends beyond the address space (5-bit addresses, GLOBAL = 0..31) and beyond a redefined GLOBAL
+    yield 'beyond-space', dict(BASE, addr_bits=5, max_len=2 if tier == 'quick' else 3, win_start=27, win_end=38, fill=170), 'AlphaC03', None
+    yield 'beyond-global', dict(BASE, addr_bits=16, max_len=2 if tier == 'quick' else 3, win_start=10, win_end=25, fill=0, origin=4,
+                                pre_zones_op='ZonesB', pre_zones=[('GLOBAL', 4, 15), ('z1', 6, 9), ('z2', 14, 17)]), 'AlphaC03', None
     if tier == 'quick':
         yield 'sim7', dict(BASE, max_len=7, win_start=3, win_end=10, fill=170), 'AlphaC03', 'num=3000'
     else:
